@@ -109,3 +109,50 @@ def param_names(fn):
     a = fn.args
     return [x.arg for x in a.posonlyargs + a.args] + ([a.vararg.arg] if a.vararg else []) + \
         [x.arg for x in a.kwonlyargs] + ([a.kwarg.arg] if a.kwarg else [])
+
+
+def flat_self_calls(stmts, class_node, stop=(), depth=3, _seen=None):
+    """Call nodes of the statements in source order, with calls to private helper methods of the same class
+    (`self._helper(...)`, not in `stop`) followed by the calls of the helper's body, recursively. Lets ordering and
+    who-calls rules look through helpers a refactoring extracted."""
+    _seen = _seen or set()
+    methods = {n.name: n for n in class_node.body if isinstance(n, (ast.FunctionDef, ast.AsyncFunctionDef))}
+    out = []
+    for st in (stmts if isinstance(stmts, list) else [stmts]):
+        for c in calls(st):
+            out.append(c)
+            f = c.func
+            if isinstance(f, ast.Attribute) and isinstance(f.value, ast.Name) and f.value.id == 'self' \
+                    and f.attr in methods and f.attr not in stop and f.attr not in _seen and depth > 0:
+                out += flat_self_calls(methods[f.attr].body, class_node, stop, depth - 1, _seen | {f.attr})
+    return out
+
+
+def only_called_from(class_node, name, allowed_callers, module_tree=None):
+    """True when every call `self.<name>(...)` in the class (and no other reference in the module) sits in one of the
+    allowed caller methods."""
+    sites = []
+    for m in class_node.body:
+        if isinstance(m, (ast.FunctionDef, ast.AsyncFunctionDef)):
+            for n in ast.walk(m):
+                if isinstance(n, ast.Attribute) and n.attr == name:
+                    sites.append(m.name)
+    return bool(sites) and all(s in allowed_callers for s in sites)
+
+
+def root_caller(class_node, method_name, depth=4, anchors=()):
+    """Follow single-caller chains of private helpers upwards: a private method referenced from exactly one other
+    method of the class is attributed to that method (helpers extracted by a refactoring keep their old identity)."""
+    name = method_name
+    for _ in range(depth):
+        if not name.startswith('_') or name.startswith('__') or name in anchors:
+            break
+        users = set()
+        for m in class_node.body:
+            if isinstance(m, (ast.FunctionDef, ast.AsyncFunctionDef)) and m.name != name:
+                if any(isinstance(n, ast.Attribute) and n.attr == name for n in ast.walk(m)):
+                    users.add(m.name)
+        if len(users) != 1:
+            break
+        name = users.pop()
+    return name
